@@ -14,6 +14,11 @@ cond_var` block, every notify is under it; SENT - as many sentinels as
 workers, queue.join() first, worker leaves on the sentinel and acknowledges
 it (task_done) because the queue outlives the call; LOCK - the
 environment lock is re-entrant.
+SHUT-2 - the sentinel loop is reached only on paths where the spawn loop
+ran to its end (or it counts the started threads): no sentinel outlives the
+call in the queue of the backend. BACKEND-OWNED - a backend (and its queue) is
+built per call / per Scheduler, never once for the process (class attribute,
+module-level object, default parameter value).
 Not decided: termination of Task.do, liveness under unfair OS scheduling.
 '''
 ASSUMPTIONS = [
@@ -29,6 +34,7 @@ def check(ctx):
     ctx.run(sched_worker.check_wrk1)
     ctx.run(sched_worker.check_wait_sent)
     ctx.run(sched_rel.check_lock)
+    ctx.run(sched_worker.check_backend_owned)
 
 
 from ..variants import sched as _v   # noqa: E402
